@@ -5,7 +5,7 @@
 EXTENDS AddrTrans
 A1 == [src |-> 1, p |-> [k |-> "r", a |-> <<0, 1>>, n |-> 4, d |-> <<>>, m |-> <<>>, pid |-> 1]]
 A2 == [src |-> 2, p |-> [k |-> "w", a |-> <<0, 3>>, n |-> 2, d |-> <<9, 8>>, m |-> <<1, 0>>, pid |-> 1]]
-B  == [src |-> 1, p |-> [k |-> "w", a |-> <<0, 2>>, n |-> 1, d |-> <<7>>, m |-> <<1>>, pid |-> 2]]
+B  == [src |-> 1, p |-> [k |-> "w", a |-> <<0, 2>>, n |-> 1, d |-> <<7>>, m |-> NilMask, pid |-> 2]]   \* write without a mask
 C  == [src |-> 2, p |-> [k |-> "r", a |-> <<0, 6>>, n |-> 4, d |-> <<>>, m |-> <<>>, pid |-> 1]]
 MCReqs == {A1, A2, B, C}
 MCReqs3 == {A1, A2, B}
